@@ -45,6 +45,17 @@ def mkArgs (r0 z0 : Float) (a : Array Float) : Args :=
 def step (ts : List String) : String :=
   match ts with
   | ["pi"] => fF piF
+  -- "rows ndim nrows ncols v..." (row-major): which two rows the code hands to the interpolator, or E (IndexError)
+  | "rows" :: ndim :: nrows :: ncols :: vals =>
+      let nc := pN ncols
+      let fl := vals.map pF
+      let rec chunk (n : Nat) (l : List Float) : List (List Float) :=
+        match n with
+        | 0 => []
+        | n + 1 => l.take nc :: chunk n (l.drop nc)
+      match profileOfArray (pN ndim) (chunk (pN nrows) fl) with
+      | none => "E"
+      | some (x, f) => String.intercalate " " [toString x.length, toString f.length, fFs x, fFs f]
   | ["psin", raw] => fF (psiN (fun _ _ => pF raw) 0 0)
   | ["norm", psi, ax, lc] => fF (normGrid (pF psi) (pF ax) (pF lc))
   | ["mask", poly, psin] => fF (insideLcfs (pF poly) (pF psin))
